@@ -372,6 +372,9 @@ pub fn worker<C: Check>(a: WorkerArgs) {
     let mut runs = 0u64;
     let t0 = Instant::now();
     let mut idx = a.start;
+    // sensitivity runs only need to know whether a change is caught: stop a stride after n violations
+    let max_viol: u64 = std::env::var("VERIF_WORKER_MAX_VIOL").ok().and_then(|s| s.parse().ok()).unwrap_or(u64::MAX);
+    let mut n_viol = 0u64;
     while idx < a.total {
         if a.wall_cap_s > 0 && runs % 16 == 0 && t0.elapsed().as_secs() >= a.wall_cap_s {
             let _ = writeln!(out, "{}", json!({"t":"capped","next":idx}));
@@ -408,6 +411,12 @@ pub fn worker<C: Check>(a: WorkerArgs) {
         }
         let _ = out.write_all(format!("E {}\n", idx).as_bytes());
         idx += a.stride;
+        if verdict != 0 {
+            n_viol += 1;
+            if n_viol >= max_viol {
+                break;
+            }
+        }
         if verdict != 0 && panicked && a.restarts_left > 0 && idx < a.total {
             // a panic may have left process-global state behind (poisoned locks): continue in a fresh process
             let _ = writeln!(out, "{}", json!({"t":"restart","next":idx}));
